@@ -51,6 +51,12 @@ inductive Atom where
   -- the loop headers and the two statements around them (read for `cell_loop_order`; the glue of
   -- `Props.C01Body.iterI` / `rowsI` stands for them, they are not executed by `exec`)
   | loadNext | dirtyZero | colLoop | rowRange
+  -- inside the colour / underline blocks
+  | colAssign | psParams | notRgb | psAsIndex | lenPs | lit1 | lit3 | ps0lt8 | ps0lt16
+  | wrFgReset | wrFgSet | wrFgBright | wrFgIndex | wrFgRGB
+  | wrBgReset | wrBgSet | wrBgBright | wrBgIndex | wrBgRGB
+  | ulChanged | wrUlReset | wrUlIndex | wrUlRGB
+  | ulStyleAssign | litTrue | litFalse | wrUlStyleSet | ulStyleVar | litUnderlineOff | wrUnderlineReset | wrUnderlineSet
   | none_       -- a `switch` / `default` line (no text)
   | unknown
   deriving DecidableEq, Repr, Inhabited
@@ -122,6 +128,37 @@ def atomOf (t : String) : Atom :=
   else if t = "dirty:=0" then .dirtyZero
   else if t = "col:=0;col<len(vx.screenNext.buf[row]);col+=1" then .colLoop
   else if t = "row:=range vx.screenNext.buf" then .rowRange
+  else if t = "fg:=next.Foreground" ∨ t = "bg:=next.Background" ∨ t = "ul:=next.UnderlineColor" then .colAssign
+  else if t = "ps:=fg.Params()" ∨ t = "ps:=bg.Params()" ∨ t = "ps:=ul.Params()" then .psParams
+  else if t = "!vx.caps.rgb" then .notRgb
+  else if t = "ps=fg.asIndex().Params()" ∨ t = "ps=bg.asIndex().Params()" ∨ t = "ps=ul.asIndex().Params()" then .psAsIndex
+  else if t = "len(ps)" then .lenPs
+  else if t = "1" then .lit1
+  else if t = "3" then .lit3
+  else if t = "ps[0]<8" then .ps0lt8
+  else if t = "ps[0]<16" then .ps0lt16
+  else if t = "vx.tw.WriteString(fgReset)" then .wrFgReset
+  else if t = "vx.tw.Printf(fgSet,ps[0])" then .wrFgSet
+  else if t = "vx.tw.Printf(fgBrightSet,ps[0]-8)" then .wrFgBright
+  else if t = "vx.tw.Printf(fgIndexSet,ps[0])" then .wrFgIndex
+  else if t = "vx.tw.Printf(fgRGBSet,ps[0],ps[1],ps[2])" then .wrFgRGB
+  else if t = "vx.tw.WriteString(bgReset)" then .wrBgReset
+  else if t = "vx.tw.Printf(bgSet,ps[0])" then .wrBgSet
+  else if t = "vx.tw.Printf(bgBrightSet,ps[0]-8)" then .wrBgBright
+  else if t = "vx.tw.Printf(bgIndexSet,ps[0])" then .wrBgIndex
+  else if t = "vx.tw.Printf(bgRGBSet,ps[0],ps[1],ps[2])" then .wrBgRGB
+  else if t = "cursor.UnderlineColor!=next.UnderlineColor" then .ulChanged
+  else if t = "vx.tw.WriteString(ulColorReset)" then .wrUlReset
+  else if t = "vx.tw.Printf(ulIndexSet,ps[0])" then .wrUlIndex
+  else if t = "vx.tw.Printf(ulRGBSet,ps[0],ps[1],ps[2])" then .wrUlRGB
+  else if t = "ulStyle:=next.UnderlineStyle" then .ulStyleAssign
+  else if t = "true" then .litTrue
+  else if t = "false" then .litFalse
+  else if t = "vx.tw.WriteString(tparm(ulStyleSet,ulStyle))" then .wrUlStyleSet
+  else if t = "ulStyle" then .ulStyleVar
+  else if t = "UnderlineOff" then .litUnderlineOff
+  else if t = "vx.tw.WriteString(underlineReset)" then .wrUnderlineReset
+  else if t = "vx.tw.WriteString(underlineSet)" then .wrUnderlineSet
   else if t = "col+i>=len(vx.screenNext.buf[row])" then .colIBeyond
   else if t = "end:=col+i+vx.advance(vx.screenLast.buf[row][col+i])+1;end>dirty" then .endLastIDirty
   else if t = "vx.screenLast.buf[row][col+i]=Cell{}" then .lastINull
@@ -184,6 +221,10 @@ structure Env where
   lastRow : List Cell := []      -- vx.screenLast.buf[row] (the nulling loops index it)
   i : Nat := 0                   -- `i`
   brk : Bool := false            -- `break` hit
+  ps : List Nat := []            -- `ps`
+  colv : Nat := 0                -- `fg` / `bg` / `ul`
+  colSel : Nat := 0              -- which colour the block is about: 0 Foreground, 1 Background, 2 UnderlineColor
+  ulsv : Nat := 0                -- `ulStyle`
   w : Int := 0
   ret : Option Int := none
   cn : CursorState := {}
@@ -217,6 +258,14 @@ def evalG (cw : String → Nat) (caps : Caps) (a : Atom) (e : Env) : Env × Bool
   | .unchanged => (e, decide (e.next = e.last) && !e.refresh && decide (e.col ≥ e.dirty))
   | .shapeChanged => (e, decide (e.shapeLast ≠ e.shapeNext))
   | .cursorAppears => (e, e.cn.visible && !e.cl.visible)
+  | .fgDelta => (e, decide (e.cursor.fg ≠ e.next.style.fg))
+  | .bgDelta => (e, decide (e.cursor.bg ≠ e.next.style.bg))
+  | .ulDelta => (e, caps.styledUnderlines)
+  | .ulChanged => (e, decide (e.cursor.ul ≠ e.next.style.ul))
+  | .ulStyleDelta => (e, decide (e.cursor.ulStyle ≠ e.next.style.ulStyle))
+  | .notRgb => (e, !caps.rgb)
+  | .ps0lt8 => (e, decide (e.ps.getD 0 0 < 8))
+  | .ps0lt16 => (e, decide (e.ps.getD 0 0 < 16))
   | .colIBeyond => (e, decide (e.col + e.i ≥ e.len))
   | .endLastIDirty =>
       ({ e with endv := e.col + e.i + advance cw (e.lastRow[e.col + e.i]?.getD {}) + 1 },
@@ -272,9 +321,40 @@ def evalS (cw : String → Nat) (caps : Caps) (a : Atom) (e : Env) : Env :=
   | .wrShape => { e with out := e.out ++ [Tok.pointer e.shapeNext] }
   | .shapeAssign => { e with shapeLast := e.shapeNext }
   | .wrShowCursor => { e with out := e.out ++ showCursorToks e.cn }
+  | .colAssign => { e with colv := if e.colSel = 0 then e.next.style.fg else if e.colSel = 1 then e.next.style.bg else e.next.style.ul }
+  | .psParams => { e with ps := VaxisModel.Model.Color.params e.colv }
+  | .psAsIndex => { e with ps := VaxisModel.Model.Color.params (VaxisModel.Model.Color.asIndex e.colv) }
+  | .wrFgReset => { e with out := e.out ++ [Tok.sgr [[39]]] }
+  | .wrFgSet => { e with out := e.out ++ [Tok.sgr [[30 + e.ps.getD 0 0]]] }
+  | .wrFgBright => { e with out := e.out ++ [Tok.sgr [[90 + (e.ps.getD 0 0 - 8)]]] }
+  | .wrFgIndex => { e with out := e.out ++ [Tok.sgr [[38, 5, e.ps.getD 0 0]]] }
+  | .wrFgRGB => { e with out := e.out ++ [Tok.sgr [[38, 2, e.ps.getD 0 0, e.ps.getD 1 0, e.ps.getD 2 0]]] }
+  | .wrBgReset => { e with out := e.out ++ [Tok.sgr [[49]]] }
+  | .wrBgSet => { e with out := e.out ++ [Tok.sgr [[40 + e.ps.getD 0 0]]] }
+  | .wrBgBright => { e with out := e.out ++ [Tok.sgr [[100 + (e.ps.getD 0 0 - 8)]]] }
+  | .wrBgIndex => { e with out := e.out ++ [Tok.sgr [[48, 5, e.ps.getD 0 0]]] }
+  | .wrBgRGB => { e with out := e.out ++ [Tok.sgr [[48, 2, e.ps.getD 0 0, e.ps.getD 1 0, e.ps.getD 2 0]]] }
+  | .wrUlReset => { e with out := e.out ++ [Tok.sgr [[59]]] }
+  | .wrUlIndex => { e with out := e.out ++ [Tok.sgr [[58, 5, e.ps.getD 0 0]]] }
+  | .wrUlRGB => { e with out := e.out ++ [Tok.sgr [[58, 2, e.ps.getD 0 0, e.ps.getD 1 0, e.ps.getD 2 0]]] }
+  | .ulStyleAssign => { e with ulsv := e.next.style.ulStyle }
+  | .wrUlStyleSet => { e with out := e.out ++ [Tok.sgr [[4, e.ulsv]]] }
+  | .wrUnderlineReset => { e with out := e.out ++ [Tok.sgr [[24]]] }
+  | .wrUnderlineSet => { e with out := e.out ++ [Tok.sgr [[4]]] }
   | .break_ => { e with brk := true }
   | .lastINull => { e with lastRow := e.lastRow.set (e.col + e.i) {} }
   | _ => { e with unknown := true }
+
+/-- `switch tag { case c: … }`: does the tag's value equal the case constant? -/
+def tagMatch (caps : Caps) (tag c : Atom) (e : Env) : Bool :=
+  match tag, c with
+  | .lenPs, .ret0 => e.ps.length == 0
+  | .lenPs, .lit1 => e.ps.length == 1
+  | .lenPs, .lit3 => e.ps.length == 3
+  | .ulDelta, .litTrue => caps.styledUnderlines
+  | .ulDelta, .litFalse => !caps.styledUnderlines
+  | .ulStyleVar, .litUnderlineOff => e.ulsv == 0
+  | _, _ => false
 
 /-! ### execution -/
 
@@ -291,23 +371,23 @@ def exec (cw : String → Nat) (caps : Caps) : Nat → List (Nat × Kind × Atom
     | .if_ =>
         let r := evalG cw caps a e
         exec cw caps f after (if r.2 then exec cw caps f body r.1 else r.1)
-    | .switch_ => exec cw caps f after (execArms cw caps f body e)
+    | .switch_ => exec cw caps f after (execArms cw caps f a body e)
     | .stmt => exec cw caps f after (evalS cw caps a e)
     | .for_ =>
         if a = Atom.nullLoop then exec cw caps f after (loopI cw caps f body { e with i := 1 })
         else { e with unknown := true }
     | _ => { e with unknown := true }
 /-- The arms of a `switch`: the first `case` whose guard holds, else `default`. -/
-def execArms (cw : String → Nat) (caps : Caps) : Nat → List (Nat × Kind × Atom) → Env → Env
-  | 0, _, e => { e with unknown := true }
-  | _, [], e => e
-  | f + 1, (d, k, a) :: rest, e =>
+def execArms (cw : String → Nat) (caps : Caps) : Nat → Atom → List (Nat × Kind × Atom) → Env → Env
+  | 0, _, _, e => { e with unknown := true }
+  | _, _, [], e => e
+  | f + 1, tag, (d, k, a) :: rest, e =>
     let body := rest.takeWhile (fun l => d < l.1)
     let after := rest.dropWhile (fun l => d < l.1)
     match k with
     | .case_ =>
-        let r := evalG cw caps a e
-        if r.2 then exec cw caps f body r.1 else execArms cw caps f after r.1
+        let r := if tag = Atom.none_ then evalG cw caps a e else (e, tagMatch caps tag a e)
+        if r.2 then exec cw caps f body r.1 else execArms cw caps f tag after r.1
     | .default_ => exec cw caps f body e
     | _ => { e with unknown := true }
 /-- `for i := 1; i < skip+1; i += 1 { body }` after the init statement. -/
